@@ -111,6 +111,16 @@ def c16_space(ctx, n, mode, unit, seq=False, ev=(), evflag=4):
         ds2 = call(h + dh)
     ib2, ie2 = index_of(rows, ds2.begin), index_of(rows, ds2.end)
     ctx.check('monotone_in_height', ib2 <= ib and ie2 >= ie, info={'b1': ib, 'b2': ib2, 'e1': ie, 'e2': ie2})
+    # the rows of the first answer are re-displayed in another unit (what printing a DangerSpace does to them: display unit only,
+    # magnitudes unchanged), so the trajectory now carries rows in MIXED display units; the first question again: the first answer
+    RU = p.Unit.Yard if unit != 'Yard' else p.Unit.Meter
+    for r in (ds.at_range, ds.begin, ds.end):
+        r.distance << RU
+        r.target_drop << p.Unit.Centimeter
+    with with_preferred(distance=U):
+        ds5 = call(h)
+    ctx.check('same_question_same_answer', (index_of(rows, ds5.at_range), index_of(rows, ds5.begin), index_of(rows, ds5.end)) == (ia, ib, ie),
+              info={'first': (ia, ib, ie), 'after': 'rows of the first answer re-displayed in other units'})
     if not seq:
         return
     ia2, ib2, ie2 = claims(ds2, h + dh, 'second, taller target')
@@ -181,3 +191,32 @@ def c16_successive(ctx, n):
         ctx.check('bound_is_edge_or_exceeds', (ie == n - 1) or (ctx.abs(drop[ie] - drop[ia]) >= half) or ie == ia, info={'bound': 'end', 'result': k})
         del hr, lst, ds
     del drain
+
+
+@harness('C16.float_witness', 'C16', functions=FUNCS, must_reach=['check:request_equal_to_a_row_distance_selects_that_row'],
+         bounds='TEST STRENGTH (concrete doubles; the symbolic harnesses compare over the reals, where a unit round trip is exact): 60 rows at k x 25 m (and k x 30 yd, k x 100 ft) '
+                'asked for at exactly the distance of each row, as a quantity in the rows\' unit, under a preferred unit that differs from it: the target row is that row, '
+                'the last row is reached, and the next representable distance beyond the last row is not')
+def c16_float_witness(ctx):
+    import math
+    p = pybc()
+    U = p.Unit
+    bad = []
+    for (ru, stepv, pref) in ((U.Meter, 25.0, U.Yard), (U.Yard, 30.0, U.Meter), (U.Foot, 100.0, U.Meter), (U.Meter, 0.3, U.Foot)):
+        rows = [mkrow(p, time=float(k), dist_ft=0.0, drop_ft=-0.001 * k * k) for k in range(60)]
+        rows = [r._replace(distance=ru(stepv * k)) for k, r in enumerate(rows)]
+        hr = p.HitResult(None, rows, True)
+        with with_preferred(distance=pref):
+            for k in range(60):
+                try:
+                    ds = hr.danger_space(ru(stepv * k), U.Inch(1.0), U.Radian(0.0))
+                    if ds.at_range is not rows[k]:
+                        bad.append((str(ru), k, index_of(rows, ds.at_range)))
+                except ArithmeticError:
+                    bad.append((str(ru), k, 'raised'))
+            try:
+                hr.danger_space(ru(math.nextafter(stepv * 59, math.inf)), U.Inch(1.0), U.Radian(0.0))
+                bad.append((str(ru), 'beyond', 'accepted'))
+            except ArithmeticError:
+                pass
+    ctx.check('request_equal_to_a_row_distance_selects_that_row', not bad, info={'bad': bad[:6], 'count': len(bad)})
